@@ -9,10 +9,13 @@ import (
 	"encoding/json"
 	"fmt"
 	"os"
+	"runtime"
 	"sort"
 	"strconv"
 	"strings"
 	"sync"
+	"sync/atomic"
+	"syscall"
 	"testing"
 	"time"
 )
@@ -167,29 +170,80 @@ func (r *Report) OverBudget() bool {
 
 var journalF *os.File
 var journalN int
+var lastProgress atomic.Int64
 
-// journal records the case about to run (cheaply: rewrite a small file).
-func journal(format string, a ...any) {
-	p := os.Getenv("MC_JOURNAL")
-	if p == "" {
-		return
+// watchdog: a case that makes no progress for a long REAL time has hung (e.g. a
+// goroutine of the node deadlocked on a real mutex, which virtual time cannot
+// see). The worker exits; the driver attributes the hang to the journalled case.
+func init() {
+	lastProgress.Store(time.Now().UnixNano())
+	limit := 180 * time.Second
+	if v, err := strconv.Atoi(os.Getenv("MC_WATCHDOG_S")); err == nil && v > 0 {
+		limit = time.Duration(v) * time.Second
 	}
-	if journalF == nil {
-		f, err := os.OpenFile(p, os.O_CREATE|os.O_WRONLY|os.O_TRUNC, 0o644)
+	go func() {
+		for {
+			time.Sleep(2 * time.Second)
+			if os.Getenv("MC_JOURNAL") == "" {
+				continue
+			}
+			if d := time.Since(time.Unix(0, lastProgress.Load())); d > limit {
+				fmt.Fprintf(os.Stderr, "\nWATCHDOG: no progress for %v: the current case hangs\n", d.Round(time.Second))
+				buf := make([]byte, 1<<20)
+				n := runtime.Stack(buf, true)
+				os.Stderr.Write(buf[:min(n, 60000)])
+				os.Exit(3)
+			}
+		}
+	}()
+}
+
+// journal records the case about to run in a memory-mapped file: a store, not a
+// system call, and the content survives a crash of the process.
+var journalMap []byte
+var lastJournal string
+
+func journal(format string, a ...any) {
+	lastProgress.Store(time.Now().UnixNano())
+	if journalMap == nil {
+		p := os.Getenv("MC_JOURNAL")
+		if p == "" {
+			return
+		}
+		f, err := os.OpenFile(p, os.O_CREATE|os.O_RDWR|os.O_TRUNC, 0o644)
+		if err != nil {
+			return
+		}
+		if err := f.Truncate(4096); err != nil {
+			return
+		}
+		m, err := syscall.Mmap(int(f.Fd()), 0, 4096, syscall.PROT_READ|syscall.PROT_WRITE, syscall.MAP_SHARED)
 		if err != nil {
 			return
 		}
 		journalF = f
+		journalMap = m
 	}
 	s := fmt.Sprintf(format, a...)
 	if len(s) > 4000 {
 		s = s[:4000]
 	}
-	_, _ = journalF.WriteAt([]byte(s+strings.Repeat(" ", max(0, journalN-len(s)))+"\n"), 0)
-	if len(s) > journalN {
-		journalN = len(s)
+	lastJournal = s
+	n := copy(journalMap, s)
+	for i := n; i < journalN && i < len(journalMap); i++ {
+		journalMap[i] = ' '
+	}
+	if n < len(journalMap) {
+		journalMap[n] = '\n'
+	}
+	if n > journalN {
+		journalN = n
 	}
 }
+
+// journalTick only feeds the watchdog (for hot loops over pure objects whose
+// panics are recovered in place).
+func journalTick() { lastProgress.Store(time.Now().UnixNano()) }
 
 func loadReplay(v any) bool {
 	p := os.Getenv("MC_REPLAY")
